@@ -29,7 +29,7 @@ macro_rules! comp_plain {
 }
 
 comp_plain!(Ta, Tb);
-comp_plain!(Qa, Qc, Qe, Qf, Qg, Qi, Qj, Qk, Ql, Qm, Qn, Qo, Qp);
+comp_plain!(Qa, Qe, Qf, Qg, Qi, Qj, Qk, Ql, Qm, Qn, Qo, Qp);
 #[cfg(feature = "32_components")]
 comp_plain!(Ra, Rb, Rc, Rd, Re, Rf, Rg, Rh, Ri, Rj, Rk, Rl, Rm, Rn, Ro, Rp);
 
@@ -226,6 +226,24 @@ macro_rules! comp_odd {
 comp_odd!(Qb, 1);
 comp_odd!(Qd, 3);
 comp_odd!(Qh, 4104);
+
+/// A component WITHOUT drop glue (`needs_drop` is false) but with an observable `Clone`: it has no
+/// identity (id 0), carries a payload with a redundant copy, and counts its Clone::clone calls.
+pub struct Qc { pub p: i64, pub chk: i64 }
+impl Comp for Qc {
+    const NAME: &'static str = "Qc";
+    fn new(p: i64) -> Self { Self { p, chk: !p } }
+    fn val(&self) -> Val { (0, self.p) }
+    fn set(&mut self, p: i64) { self.p = p; self.chk = !p; }
+    fn check(&self) {
+        if self.chk != !self.p {
+            reg::with(|r| r.anomalies.push(format!("corrupt_Qc:{}", self.p)));
+        }
+    }
+}
+impl Clone for Qc {
+    fn clone(&self) -> Self { reg::nd_cloned(); Self { p: self.p, chk: self.chk } }
+}
 
 /// Read a component through the `Comp` trait, running its integrity check.
 pub fn rd<C: Comp>(c: &C) -> Val {
